@@ -91,13 +91,13 @@ def conversation(nfc, sim_seed_tag, cfg, P, Q, script, sim):
                 state["frames"].append((idx, src, td[:4].hex(), len(td)))
                 f = script.get(idx)
                 if f is not None:
-                    state["fired"].append((idx, f, src, td[2] >> 5))
+                    state["fired"].append((idx, f, src, td[2] >> 5, td[2] & 0xF0 == 0x90))
                     if f == "lose":
                         return [(simnet.LOSE, 0, payload)]
                     return [(simnet.CORRUPT, net.latency, payload.split()[0] + b" ")]
         return [(fate, net.latency, payload)]
     net.hook = hook
-    out = {"I": [], "T": [], "I.exc": None, "T.exc": None, "act": {}}
+    out = {"I": [], "T": [], "I.exc": None, "T.exc": None, "act": {}, "rtox": []}
 
     def initiator():
         clf = nfc.ContactlessFrontend("udp:T:54321")
@@ -156,6 +156,10 @@ def conversation(nfc, sim_seed_tag, cfg, P, Q, script, sim):
                 out["T"].append(bytes(data))
                 if i >= len(Q):
                     break
+                rtox = cfg.get("rtox", ())
+                if i < len(rtox) and rtox[i]:
+                    # the application needs more time: RTOX request/response before the answer goes out
+                    out["rtox"].append(dep.send_timeout_extension(rtox[i]))
                 data = dep.exchange(Q[i], cfg["timeout"] * 3)
                 i += 1
             out["T.released"] = data is None
@@ -203,6 +207,10 @@ def run_one(sim, params):
         lq = max(1, kq * miu_t2i + sim.randint("q.d", -2, 2)) if kq else sim.pick("q.small", [1, 2, 10, 30])
         P.append(b"P%02d:" % i + sim.bytes("p", lp, tag=i)[:max(0, lp - 4)])
         Q.append(b"Q%02d:" % i + sim.bytes("q", lq, tag=100 + i)[:max(0, lq - 4)])
+    # response timeout extension before some answers (rtox * rwt stays below the one second send_timeout_extension waits)
+    cfg["rtox"] = [sim.wpick("rtox", [(6, 0), (1, 1), (1, 2)]) for _ in range(n)]
+    if any(cfg["rtox"]):
+        sim.probe("rtox")
     desc = dict(cfg, sizes=[(len(p), len(q)) for p, q in zip(P, Q)], miu=(miu_i2t, miu_t2i))
     if cfg["did"] is not None:
         sim.probe("did")
@@ -247,9 +255,9 @@ def judge(sim, cfg, P, Q, script, r, desc):
     ov = {"script": sorted(script.items())}
     sdesc = ", ".join("%s@%d" % (f, p) for p, f in sorted(script.items())) or "fault-free"
     fired = r["fired"]
-    for (_idx, f, _src, _t) in fired:
+    for (_idx, f, _src, _t, _x) in fired:
         sim.fault(f)
-    kinds = "+".join(sorted(set(f for _i, f, _s, _t in fired))) or "fault-free"
+    kinds = "+".join(sorted(set(f for _i, f, _s, _t, _x in fired))) or "fault-free"
     frames = r["frames"][-8:]
     if "deadlock" in r or "budget" in r:
         raise Violation("hang", kinds, "conversation under [%s] did not terminate: %s; %r"
@@ -276,10 +284,15 @@ def judge(sim, cfg, P, Q, script, r, desc):
                             "%s's exchange() raised %r (%s) under [%s]; %r" % (side, e, core.exc_line(e), sdesc, desc), ov)
     complete = len(r["I"]) == len(Q) and len(r["T"]) == len(P)
     outcome = "complete" if complete else "I:%s T:%s" % (type(r["I.exc"]).__name__, type(r["T.exc"]).__name__)
-    cls = tuple(sorted((f, "req" if s == "I" else "res", t) for _i, f, s, t in fired))
+    cls = tuple(sorted((f, "req" if s == "I" else "res", t) for _i, f, s, t, _x in fired))
     sim.cls(cfg["brs"], cfg["did"] is not None, cfg["nad"] is not None, len(P), cls, outcome)
     sim.log(sdesc, outcome, r["dep_idx"])
-    if len(fired) <= 1 and len(script) <= 1 and not complete:
+    # a corrupted RTOX request of the Target cannot be recovered by the rules of the protocol: the Initiator asks for
+    # retransmission with NACK and must treat the RTOX that comes back as a protocol error (nfc.dep follows that rule)
+    by_rule = any(f == "corrupt" and s == "T" and x for _i, f, s, _t, x in fired)
+    if by_rule:
+        sim.probe("rtox.corrupt_unrecoverable_by_rule")
+    if len(fired) <= 1 and len(script) <= 1 and not complete and not by_rule:
         raise Violation("not-recovered", kinds if fired else "fault-free",
                         "conversation with %s ended incomplete: initiator got %d/%d answers (%r), target got %d/%d payloads (%r); "
                         "frames %r; %r" % ("one fault [%s]" % sdesc if fired else "no fault", len(r["I"]), len(Q), r["I.exc"],
